@@ -485,6 +485,16 @@ class Enc:
                 and rng.random() < 0.15):
             # IndexedArray view: permuted storage with unreachable extras
             n = len(values)
+            if n and rng.random() < 0.4:
+                # dictionary style: the distinct values stored once, the index repeats them (index longer than content)
+                keys, content_vals, index = {}, [], []
+                for v in values:
+                    kk = repr(v)
+                    if kk not in keys:
+                        keys[kk] = len(content_vals)
+                        content_vals.append(v)
+                    index.append(keys[kk])
+                return IX(rng.choice(["32", "U32", "64"]), index, self._encode(content_vals, T))
             perm = list(range(n))
             rng.shuffle(perm)
             # storage order: position j of storage holds values[perm[j]]; add junk duplicates at the end
